@@ -20,6 +20,16 @@ def check_reader(rep, case, name):
         v = tr(xm)
         if not close(v, want, 1e-9, 1e-12) or not (min(y0, y1) - 1e-9 <= v <= max(y0, y1) + 1e-9): rep.dev(name, case, 'value at %r: %r' % (xm, v), 'linear interpolant %r' % want); return
     if tr(xs[0] - 1.0) != 0.0 or tr(xs[-1] + 1.0) != 0.0: rep.dev(name, case, 'outside: %r, %r' % (tr(xs[0] - 1.0), tr(xs[-1] + 1.0)), 0.0); return
+    # the value at x does not depend on what was looked up before: one reader queried in a scrambled order (high, exactly on a
+    # point lower down, in between ...) agrees with a fresh reader per query
+    rng = random.Random(len(text))
+    qs = [x for x in xs] + [x0 + f * (x1 - x0) for x0, x1 in zip(xs, xs[1:]) for f in (0.25, 0.8)] + [xs[0] - 0.3, xs[-1] + 0.3]
+    for rnd in range(3):
+        rng.shuffle(qs)
+        for q in qs + sorted(qs) + sorted(qs, reverse=True):
+            fresh = TableReader(io.StringIO(text))(q)
+            got = tr(q)
+            if not close(got, fresh, 1e-12, 1e-14): rep.dev(name, case, 'value at %r after other look-ups: %r' % (q, got), 'value from a fresh reader: %r' % fresh); return
     rep.ok(len(pts))
 
 def check_plot(rep, case, name):
